@@ -26,7 +26,9 @@
 //   - an Encode error is legitimate (XML cannot carry a map, text only strings and bytes);
 //   - requests: absent Content-Type and supported media types decode exactly as the reference
 //     codec of the announced format does (same value, or both fail, never 415); unsupported
-//     media types are answered with 415 and never decoded; suffixed or malformed values may be
+//     media types - decided by the name before the first ';', however broken the rest of the
+//     header is - are answered with 415 and never decoded; a supported name with broken
+//     parameters, a suffixed vendor type or a blank header may be
 //     415 or the announced format, nothing else.
 package main
 
